@@ -11,6 +11,7 @@ import (
 	"os"
 	"path/filepath"
 	"sort"
+	"strings"
 	"sync/atomic"
 
 	"github.com/oasisprotocol/oasis-core/go/common"
@@ -66,7 +67,24 @@ func OpenDB(backend, dir string) dbapi.NodeDB {
 }
 
 // TryOpenDB is OpenDB returning the error (used after crashes, where failing to open is a finding).
+//
+// One dependency quirk is retried: when the child was killed while a badger background
+// goroutine was creating a new memtable file, the zero-length .mem file makes the first
+// badger.Open fail with "Create a new file" (and size the file), and the next Open succeeds.
+// This depends on unscheduled badger goroutines, does not replay, and is not oasis-core code.
 func TryOpenDB(backend, dir string) (dbapi.NodeDB, error) {
+	ndb, err := tryOpenDB(backend, dir)
+	if err != nil && strings.Contains(err.Error(), "Create a new file") {
+		BadgerNewFileRetries.Add(1)
+		ndb, err = tryOpenDB(backend, dir)
+	}
+	return ndb, err
+}
+
+// BadgerNewFileRetries counts reopen retries caused by the badger memtable quirk.
+var BadgerNewFileRetries atomic.Int64
+
+func tryOpenDB(backend, dir string) (dbapi.NodeDB, error) {
 	cfg := &dbapi.Config{DB: dir, Namespace: Namespace, MaxCacheSize: 16 * 1024 * 1024, NoFsync: true}
 	switch backend {
 	case "badger":
